@@ -535,7 +535,7 @@ MUTABLE_SHARED = ("RwLock<", "Mutex<", "Atomic", "RefCell<", "Cell<", "DashMap<"
 
 
 def r6_parallel_isolation(ctx):
-    r = ctx.rule("R6", "closures run by rayon (par_iter adapters) capture no shared mutable state (locks, atomics, cells, &mut): one transaction's validation cannot observe another's")
+    r = ctx.rule("R6", "closures run by rayon (par_iter adapters) capture no shared mutable state (locks, atomics, cells, &mut): one transaction's validation cannot observe another's", positional=False)
     prog = ctx.prog
     n = 0
     for b in prog.bodies:
@@ -583,7 +583,7 @@ ACCUMULATED = ("transactions", "fee_pool", "tips", "dosc_speed")
 
 def r7_batch_invariant_reads(ctx):
     r = ctx.rule("R7", "per-transaction validation reads none of the state fields that applying earlier transactions of the same block changes "
-                       "(transactions, fee_pool, tips, dosc_speed): a verdict cannot depend on how the block is split into batches")
+                       "(transactions, fee_pool, tips, dosc_speed): a verdict cannot depend on how the block is split into batches", positional=False)
     prog = ctx.prog
     US = "melstf::state::UnsealedState"
     ab = ctx.body("melstf::state::applytx::apply_tx_batch_impl", r)
